@@ -13,6 +13,7 @@ import numpy as np
 from ..core import import_library
 from ..ref import terms as RT
 from ..gen import fuzzysets as F
+from ..env import ENVIRONMENTS, excusable, hostile
 from ..probe import Probe, Reach
 
 WORKERS = {"quick": 1, "thorough": 16}
@@ -213,6 +214,11 @@ def run(ctx):
     ]
     funcs = {f"{k}.defuzzify": getattr(fl, k).defuzzify for k in INTEGRAL}
     funcs["Op.midpoints"] = fl.Op.__dict__["midpoints"]
+    def excuse(mechanism, observed, note):
+        # NumPy told to raise on invalid operations: the centroid and the bisector are quotients that are 0/0 for an empty set
+        return excusable(observed) or (mechanism.split(":")[0] in ("Centroid", "Bisector") and "raises FloatingPointError" in mechanism and "invalid value" in str(observed))
+
+    ctx.excuse = excuse
     with Reach(funcs) as reach, Probe() as probe:
         mon = IntegralMonitor(ctx, fl)
         mon.install(probe)
@@ -334,6 +340,81 @@ def run(ctx):
                 except Exception:
                     pass
             ctx.hit("workload:resolution above 4096")
+        # ranges far from the origin, very narrow and very wide ones: the defined point is a point of the range, wherever the range is
+        for i, rnd in ctx.cases("ranges", ctx.scale(60, 1200)):
+            lo, w = rnd.choice([(1e5, 1.0), (1e6, 1.0), (1e7, 50.0), (5.0, 1e-5), (0.0, 1e-9), (-1e-7, 2e-7), (1e12, 1000.0), (-1e9, 3.0), (0.0, 1e-300), (-1e300, 2e300), (1e-3, 1e-6), (123456.0, 0.5)])
+            hi = lo + w
+            kind = rnd.choice(["Triangle", "Trapezoid", "Rectangle", "Ramp", "Cosine"])
+            a, b, c, d = sorted(lo + w * rnd.choice([0.0, 0.1, 0.25, 0.5, 0.75, 0.9, 1.0, rnd.random()]) for _ in range(4))
+            if kind == "Triangle" and a < c:
+                t = fl.Triangle("t", a, b, c)
+            elif kind == "Trapezoid" and a < d:
+                t = fl.Trapezoid("t", a, b, c, d)
+            elif kind == "Ramp" and a != d:
+                t = fl.Ramp("t", a, d)
+            elif kind == "Cosine" and d > a:
+                t = fl.Cosine("t", 0.5 * (a + d), d - a)
+            else:
+                t = fl.Rectangle("t", a, max(d, lo + 0.5 * w))
+            if i % 2:
+                t = fl.Aggregated("set", lo, hi, fl.Maximum(), [fl.Activated(t, rnd.choice([1.0, 0.5, rnd.random()]), fl.Minimum())])
+            for k in INTEGRAL:
+                try:
+                    getattr(fl, k)(rnd.choice([10, 100, 37, 1000])).defuzzify(t, lo, hi)
+                except Exception:
+                    pass  # judged by the monitor
+            ctx.hit("workload:range far from the origin, very narrow or very wide")
+        # a user's vectorised term whose membership comes back as a boolean mask or as 0/1 integers (a crisp set): a set like
+        # any other
+        class Crisp(fl.Term):
+            def __init__(self, name, left, right, as_type):
+                super().__init__(name)
+                self.left, self.right, self.as_type = left, right, as_type
+
+            def membership(self, x):
+                inside = (np.asarray(x) >= self.left) & (np.asarray(x) <= self.right)
+                return inside if self.as_type == "bool" else np.where(inside, 1, 0) if self.as_type == "int" else inside.astype(np.float32)
+
+        for i, rnd in ctx.cases("crisp user term", ctx.scale(30, 600)):
+            lo, hi = 0.0, rnd.choice([10.0, 1.0, 4.0])
+            a = rnd.uniform(lo, 0.6 * hi)
+            term = Crisp("crisp", a, rnd.uniform(a, hi) if i % 7 else a - 1.0, ["bool", "int", "float32"][i % 3])
+            r = rnd.choice([10, 50, 37, 4])
+            xs = midpoints(lo, hi, r)
+            mu = [float(v) for v in np.asarray(term.membership(np.array(xs)))]
+            with probe.quiet():
+                for k in INTEGRAL:
+                    ctx.evaluated()
+                    want, low, high = define(k, xs, mu)
+                    try:
+                        got = float(np.asarray(getattr(fl, k)(r).defuzzify(term, lo, hi)).ravel()[0])
+                    except Exception as ex:
+                        ctx.violation(f"{k}: defuzzify raises {type(ex).__name__} on a user's term with {term.as_type} membership values", {"defuzzifier": k, "resolution": r, "term": [term.left, term.right]}, want, repr(ex))
+                        continue
+                    ctx.hit("crisp user term defuzzified")
+                    if not (feq(got, want) or (low - 1e-9 <= got <= high + 1e-9) or abs(got - want) <= 1e-9 * max(1.0, abs(want))):
+                        ctx.violation(f"{k}: a user's term with {term.as_type} membership values gives another result than the sampled definition", {"defuzzifier": k, "resolution": r, "term": [term.left, term.right]}, want, got)
+        # the process in another state: warnings are errors, the library logs at DEBUG, other NumPy print options, and NumPy told
+        # to raise on invalid operations (the centroid and the bisector of an empty set are 0/0 by their definition and may then
+        # raise; the maxima-based defuzzifiers involve no arithmetic on an empty set)
+        for i, rnd in ctx.cases("environments", (len(ENVIRONMENTS) + 1) * ctx.scale(6, 60)):
+            envname = (ENVIRONMENTS + ["errstate-invalid-raise"])[i % (len(ENVIRONMENTS) + 1)]
+            tri, rect = fl.Triangle("a", 0.0, 1.0, 2.0), fl.Rectangle("b", 2.5, 3.5)
+            deg = rnd.choice([0.0, 0.0, 0.5, rnd.random()])
+            batch = np.array([0.0, rnd.random(), 0.0, 1.0])
+            sets = [
+                fl.Aggregated("empty-or-not", 0.0, 4.0, fl.Maximum(), [fl.Activated(tri, deg, fl.Minimum()), fl.Activated(rect, 0.0, fl.Minimum())]),
+                fl.Aggregated("no terms", 0.0, 4.0, fl.Maximum(), []),
+                fl.Aggregated("batch with empty rows", 0.0, 4.0, fl.Maximum(), [fl.Activated(tri, batch, fl.Minimum()), fl.Activated(rect, batch * 0.5, fl.AlgebraicProduct())]),
+            ]
+            ctx.hit(f"environment:{envname}")
+            for k in INTEGRAL:
+                for t in sets:
+                    with (np.errstate(invalid="raise", divide="raise") if envname == "errstate-invalid-raise" else hostile(fl, envname)):
+                        try:
+                            getattr(fl, k)(rnd.choice([10, 100])).defuzzify(t, 0.0, 4.0)
+                        except Exception:
+                            pass  # judged by the monitor
         # plain terms given directly, as the unit tests do
         for i, rnd in ctx.cases("plain", ctx.scale(40, 800)):
             t = F.G.build_term(fl, F.G.shape_term(rnd, "t", -1.0, 1.0, kind=rnd.choice(["Triangle", "Trapezoid", "Gaussian", "Rectangle", "Bell"])))
@@ -380,6 +461,7 @@ def run(ctx):
         ctx.require(f"piece:{k}:tie")
     for k in ("MeanOfMaximum", "SmallestOfMaximum", "LargestOfMaximum"):
         ctx.require(f"piece:{k}:maximum attained at several sample points")
+    ctx.require("workload:range far from the origin, very narrow or very wide", "crisp user term defuzzified", "environment:errstate-invalid-raise", *[f"environment:{e}" for e in ENVIRONMENTS])
     ctx.require("law:SOM<=MOM<=LOM", "law:batch==per-set", "law:centroid-translation", "resolution:1", "resolution:1000", "event:reuse after resolution change", "event:reuse after degrees change", "event:reuse after parameter change", "event:different terms of the set carry the same name", "workload:resolution above 4096")
 
 
